@@ -82,6 +82,10 @@ def obligations(tier):
                     o = _ob(f"upd2/{f1}-then-{f2}/{cname}/{'tagless' if tagless else 'tagged'}", q=("field", "f", "<", SYM), upd=u1, upd2=u2, ai=ai, reindex=rx, tagless=tagless, n=3)
                     o["harness"] = "h_update2"
                     obs.append(o)
+    for uname in ("field=sym", "fields_callable_const", "set+unset_field"):
+        for q in (C, ("not", C)):
+            for cname, ai, rx in CONFIGS[:2]:
+                obs.append(_ob(f"upd-floats/{uname}/{q_repr(q)}/{cname}", q=q, upd=UPDS[uname], ai=ai, reindex=rx, alpha="sel", n=2, floats=True, torder="ooo"))
     obs.append(_ob("upd-op/tag", q=("tag", "k", OP, SYM), upd=UPDS["field=sym"], ai=True, alpha="small", n=3 if th else 2, torder="ooo", split_op=True))
     obs.append(_ob("upd-op/field", q=("field", "f", OP, SYM), upd=UPDS["tag=sym"], ai=True, alpha="sel", n=3 if th else 2, torder="ooo", split_op=True))
     obs.append(_ob("upd-op/time", q=("time", OP, SYM), upd=UPDS["time+1s"], ai=True, alpha="sel", n=3, torder="sym", split_op=True))
